@@ -464,10 +464,23 @@ def gen_mps_lines(r):
 
 def run_tie_mps(ck, exe, model, rundir, n):
     r = ck.rng
-    cases = []
-    # the probe: an empty stream
-    cases.append((0, 0, 1, b""))
-    cases.append((3, 0, 3, b"ROWS\n N obj\n"))
+    # probe which give-up condition the tree has: an empty stream
+    pf = os.path.join(rundir, "mpsline.probe")
+    with open(pf, "w") as f:
+        f.write("CASE 0 0 0 1 \n")
+    rc, pout, perr = vlib.sh([exe, "mpsline", pf], timeout=120)
+    pb = blocks(pout)
+    eofcheck = 1 if (pb and pb[0] == ["ret=0"]) else 0
+    ck.cov["mps_readLine_variant"] = "repaired (returns false at end of input)" if eofcheck else "original (spins at end of input)"
+    if not eofcheck:
+        if pb and pb[0] == ["hang"]:
+            ck.violation("hang:mps:readLine", "MPSInput::readLine never returns once the stream is at its end (empty stream; the model "
+                         "LexersModel.readLine false agrees: OutOfFuel for every fuel, theorem C13_mps_readLine_terminates_on_finite_stream_refuted)",
+                         {"content_hex": "", "implementation": pb[0], "theorem": "C13_mps_readLine_terminates_on_finite_stream_refuted",
+                          "input": "empty stream / any MPS file that ends before ENDATA"})
+        else:
+            ck.violation("tie-mismatch:mpsline-probe", "readLine on an empty stream neither returns false nor spins: %r" % (pb[:1],), {"output": pout[-500:]})
+    cases = [(3, 0, 3, b"ROWS\n N obj\n")]
     for _ in range(n):
         data, nl = gen_mps_lines(r)
         cases.append((r.randrange(9), r.randrange(2), nl + 2, data))
@@ -475,24 +488,33 @@ def run_tie_mps(ck, exe, model, rundir, n):
     with open(cf, "w") as f:
         for k, (sec, nf, nc, data) in enumerate(cases):
             f.write("CASE %d %d %d %d %s\n" % (k, sec, nf, nc, data.hex()))
-    rc, hout, herr = vlib.sh([exe, "mpsline", cf], timeout=600)
-    if rc != 0:
-        ck.violation("tie-crash:mpsline", "the readLine tie harness ended abnormally rc=%d: %s" % (rc, herr[-300:]), {"kind": "harness", "stderr": herr[-2000:]})
-    hb = blocks(hout)
-    eofcheck = 1 if (hb and hb[0] == ["ret=0"]) else 0
-    ck.cov["mps_readLine_variant"] = "repaired (returns false at end of input)" if eofcheck else "original (spins at end of input)"
     rc2, mout, merr = vlib.sh([model, "mpsline", str(eofcheck), cf], timeout=600)
     if rc2 != 0:
         ck.violation("model-crash", "model runner failed rc=%d: %s" % (rc2, merr[-300:]), {"kind": "model"}, no_input=True)
+        return eofcheck
     mb = blocks(mout)
+    # a predicted hang costs 150 ms of CPU in the harness: keep a sample of them, stop the other cases one call earlier
+    keep = 40 if n <= 2000 else 200
     hangs = 0
+    for k in range(len(cases)):
+        if k < len(mb) and "hang" in mb[k]:
+            hangs += 1
+            if hangs > keep:
+                sec, nf, nc, data = cases[k]
+                cases[k] = (sec, nf, len(mb[k]) - 1, data)
+                mb[k] = mb[k][:-1]
+    with open(cf, "w") as f:
+        for k, (sec, nf, nc, data) in enumerate(cases):
+            f.write("CASE %d %d %d %d %s\n" % (k, sec, nf, nc, data.hex()))
+    rc, hout, herr = vlib.sh([exe, "mpsline", cf], timeout=900)
+    if rc != 0:
+        ck.violation("tie-crash:mpsline", "the readLine tie harness ended abnormally rc=%d: %s" % (rc, herr[-300:]), {"kind": "harness", "stderr": herr[-2000:]})
+    hb = blocks(hout)
     for k, (sec, nf, nc, data) in enumerate(cases):
         if k >= len(hb) or k >= len(mb):
             break
         ck.evaluated(("mpsline", sec, nf, data), nontrivial=bool(data))
         ck.count("tie:mpsline")
-        if "hang" in hb[k]:
-            hangs += 1
         if hb[k] != mb[k]:
             j = next((i for i, (a, b) in enumerate(zip(hb[k] + ["<none>"], mb[k] + ["<none>"])) if a != b), 0)
             ck.violation("tie-mismatch:mpsline", "MPSInput::readLine and the model disagree on call %d of %r (section %d, newformat %d)\n impl : %s\n model: %s"
@@ -501,12 +523,9 @@ def run_tie_mps(ck, exe, model, rundir, n):
                           "correspondence": "LexersModel.readLine vs MPSInput::readLine"})
             break
     ck.cov["mpsline_cases"] = len(cases)
-    ck.cov["mpsline_hang_cases"] = hangs
-    if not eofcheck and hb and hb[0] == ["hang"]:
-        ck.violation("hang:mps:readLine", "MPSInput::readLine never returns once the stream is at its end (empty stream; the model "
-                     "LexersModel.readLine false agrees: OutOfFuel for every fuel, theorem C13_mps_readLine_terminates_on_finite_stream_refuted)",
-                     {"content_hex": "", "implementation": hb[0], "theorem": "C13_mps_readLine_terminates_on_finite_stream_refuted",
-                      "input": "empty stream / any MPS file that ends before ENDATA"})
+    ck.cov["mpsline_cases_ending_in_the_eof_spin"] = hangs
+    if cases:
+        ck.sample({"mpsline": [c[3][:60].decode("latin-1") for c in cases[1:4]]})
     return eofcheck
 
 
@@ -573,7 +592,7 @@ def gen_tok_cases(r, n):
 
 def run_tie_tok(ck, exe, model, rundir, n):
     r = ck.rng
-    cases = [c for c in gen_tok_cases(r, n) if b"\n" not in c[1][:0]]
+    cases = gen_tok_cases(r, n)
     cf = os.path.join(rundir, "lpftok.cases")
     with open(cf, "w") as f:
         for c in cases:
@@ -914,6 +933,7 @@ def build_inputs(ck, rundir, quick):
     for f in ("afiro.mps", "afiro.lp") + (() if quick else ("sc50a.mps", "kb2.mps", "scagr25.lp")):
         seeds.append((f, open(os.path.join(INST, f), "rb").read()))
     hangprone = 0
+    hcap = 6 if quick else 60     # inputs that cost a full timeout on the unrepaired tree are rationed
     for name, data in seeds:
         if not name.startswith("afiro") and not name.startswith("sc") and not name.startswith("kb"):
             add(name, r.choice(modes), data, "generated")
@@ -924,9 +944,9 @@ def build_inputs(ck, rundir, quick):
                 d2, fam2 = mutate(r, d2)
                 fam = fam + "+" + fam2
             # a file in MPS format that lost its ENDATA line costs a full timeout on the unrepaired tree: ration them in quick
-            if quick and d2[:1] in (b"*", b"N") and b"ENDATA" not in d2:
+            if d2[:1] in (b"*", b"N") and b"ENDATA" not in d2:
                 hangprone += 1
-                if hangprone > 6:
+                if hangprone > hcap:
                     continue
             add("m%d-%s" % (j, name), r.choice(modes), d2, "mut:" + fam)
     # every mutation family at least once on one LP and one MPS seed
@@ -934,9 +954,9 @@ def build_inputs(ck, rundir, quick):
                 "dup-name", "dollar", "neg-range", "empty-field"]:
         for name, data in (seeds[0], seeds[1]):
             d2, f2 = mutate(r, data, fam)
-            if quick and d2[:1] in (b"*", b"N") and b"ENDATA" not in d2:
+            if d2[:1] in (b"*", b"N") and b"ENDATA" not in d2:
                 hangprone += 1
-                if hangprone > 8:
+                if hangprone > hcap + 2:
                     continue
             add("f-%s-%s" % (fam, name), r.choice(modes[:2]), d2, "mut:" + f2)
     # 4. basis files
@@ -947,9 +967,9 @@ def build_inputs(ck, rundir, quick):
             d, fam = mutate(r, d)
         else:
             fam = "valid-ish"
-        if quick and b"ENDATA" not in d:
+        if b"ENDATA" not in d:
             hangprone += 1
-            if hangprone > 10:
+            if hangprone > hcap + 4:
                 continue
         add("b%d.bas" % k, r.choice(["bas0", "bas1", "bas1"]), d, "bas:" + fam, GOOD)
     # 5. settings files
